@@ -96,6 +96,10 @@ class NodeSpec(statex.Spec):
 
     def enabled(self, world):
         w = world.real()
+        if w.viol:
+            # a state in which an invariant is already violated is terminal:
+            # what happens after it is a consequence, not a new finding
+            return []
         menu = w.enabled()
         hist = tuple(world._hist)
         if self.checkpoints and (self._ck is None or self._ck[0] != hist):
